@@ -48,9 +48,11 @@ func (c *Configs) Cron() (*configv1alpha1.CronExecutionConfig, error) { return c
 type Context struct {
 	controllercontext.Context
 	Cfg *Configs
+	St  *Stores
 }
 
 func (c *Context) Configs() controllercontext.Configs { return c.Cfg }
+func (c *Context) Stores() controllercontext.Stores   { return c.St }
 
 // ---- JobConfig lister / informer ----
 
